@@ -467,7 +467,7 @@ MANIFEST_TEXT = {
              "basename+frame+extension under the pattern's key, so no sibling contributes a phantom frame; slice bounds hold; "
              "completeness: two or more candidates of one digit width give ONE sequence whose range text compresses ALL their "
              "numbers (C07_complete, C07_complete_frames), with StrictPadding exactly when the pattern has no padding or its "
-             "width is theirs (C07_complete_strict). The specification side of the run states the same for non-strict lookups.",
+             "width is theirs (C07_complete_strict); a single candidate is returned too (C07_complete_single). The specification side of the run states the same for non-strict lookups.",
         note="Partial: as C06 for the OS side; 'every frame path exists' is checked on real directories (model: exact cover of the "
              "bucket). Known finding: negative-zero frame tokens. Trusted: Lean kernel, correspondence."),
     "C14": dict(
